@@ -217,10 +217,11 @@ pub fn check_endpoint(v: &View, e: Side, quiescent: bool, viol: &mut Vec<Violati
                 // (a peer reset read while ours was still waiting to be written supersedes it: no RST_STREAM in
                 // response to RST_STREAM)
                 let peer_first = s.peer_rst.is_some();
-                // (a GOAWAY of the peer that excludes the stream, read before the reset was due - before the call, or, for
-                // a stream whose HEADERS were still waiting, before those were written - ends the stream for both sides)
-                let due_from = tu.max(s.e_headers_written_t.unwrap_or(0));
-                let goaway_cut = (*sid % 2 == 1) != e_is_server && peer_goaways_read.iter().any(|(tg, last)| *tg < due_from && *sid > *last);
+                // (a GOAWAY of the peer that excludes the stream ends it for both sides: the peer does not process it, the
+                // endpoint drops what is still queued for it - also a reset that was waiting behind the stream's HEADERS
+                // or for the transport when the GOAWAY was read. When exactly a queued RST_STREAM could have been written
+                // is not visible from outside, so any such GOAWAY read by the endpoint excuses the missing frame.)
+                let goaway_cut = (*sid % 2 == 1) != e_is_server && peer_goaways_read.iter().any(|(_, last)| *sid > *last);
                 // a stream E initiates that never got onto the wire (waiting for a concurrency slot until a GOAWAY or
                 // the end of the connection) has nothing to reset there
                 let local = (*sid % 2 == 1) != e_is_server;
